@@ -66,9 +66,11 @@ def source_changes():
     """functions of maflib whose normalised AST differs from harness/fingerprints_pinned.json (the tree the models were
     written against).  A difference is not an alarm: it raises the case budget and lets the plugin aim its generator."""
     try:
-        cur = json.load(open(COQ + "/gen/fingerprints.json"))
+        # computed here from the tree under check (the shared gen/ directory may be rewritten by a concurrent trial)
+        import gen_tables
+        cur = gen_tables.fingerprints(REPO + "/maflib")
         pin = json.load(open(VERIF + "/harness/fingerprints_pinned.json"))
-    except (OSError, ValueError):
+    except (OSError, ValueError, SyntaxError):
         return None
     return sorted(k for k in set(cur) | set(pin) if cur.get(k) != pin.get(k))
 
